@@ -856,7 +856,7 @@ def load_known(prop=None):
 # ---------------------------------------------------------------------------- shared run
 def scenarios_for(tier, seed):
     rng = random.Random(seed * 7919 + 6)
-    n = 150 if tier == "quick" else 3000
+    n = 500 if tier == "quick" else 3000
     out = []
     cdir = os.path.join(ROOT, "corpus")
     for prop in ("C06", "C16", "C09"):
